@@ -106,7 +106,7 @@ ASSUMPTIONS = [
     "a change of what get_params reports",
 ]
 PROFILE = {
-    "quick": dict(examples=800, shards=16, budget_s=90),
+    "quick": dict(examples=1400, shards=16, budget_s=90),
     "thorough": dict(examples=12000, shards=16, budget_s=1100),
 }
 
